@@ -1001,7 +1001,8 @@ def ref_lags(gname):
 
 
 def cumulative_lag(g, lags):
-    """largest sum of plugin lags along a dependency path below the target (the target's own lag excluded)"""
+    """largest sum of plugin lags along a dependency path below the target (the target's own lag excluded);
+    called with `lag - 1` per plugin it gives the number of chunks withheld along the branch"""
     nodes = {}
     for nd in g["nodes"]:
         for p in nd.get("provides", [nd["name"]]):
@@ -1031,10 +1032,11 @@ def pipe_oracle(case, out):
             cumul = cumulative_lag(g, lags)
             if single >= case["cap"]:
                 return None      # outside the property's domain: capacity does not exceed the largest plugin lag
-            if cumul >= case["cap"]:
+            withheld = cumulative_lag(g, {k: max(v - 1, 0) for k, v in lags.items()})
+            if case["cap"] < withheld:
                 return (f"D10-shape: no failure, reconvergent graph, deadlock (MailboxFullTimeout / MailboxReadTimeout after the "
                         f"mailbox timeout) although max_messages = {case['cap']} exceeds the largest single-plugin lag "
-                        f"{single}; cumulative lag along the longer branch = {cumul} {tag}")
+                        f"{single}; cumulative lag along the longer branch = {cumul} ({withheld} chunks withheld) {tag}")
         multi = [nd for nd in g["nodes"] if nd["kind"] == "multi"]
         if fault and fault[0] == "save" and fired and multi and fault[1] in multi[0]["provides"][:-1] \
                 and "read_0=MailboxKilled" in f["died"]:
@@ -1172,7 +1174,7 @@ def lag_cases(rng, n_sched):
     cases = []
     for kind in ("lag", "chainlag"):
         for window, nch in ((4, 8), (12, 12), (14, 12)):
-            for cap in (2, 4, 5, 8, 12):
+            for cap in (2, 4, 5, 6, 7, 8, 12):
                 for lazy in (0, 1):
                     for i in range(n_sched):
                         cases.append(dict(graph=f"{kind}:{window}:{nch}", proc="threaded_mailbox", lazy=lazy, workers=None, cap=cap,
@@ -1235,7 +1237,7 @@ def run(ctx):
     # (0) kill protocol of one mailbox (C05's tie, kill-heavy)
     from props import c05
     with (c05.pinned() if hasattr(c05, "pinned") else contextlib.nullcontext()):
-        kcases = kill_cases(rng, ctx.pick(500, 5000))
+        kcases = kill_cases(rng, ctx.pick(300, 12000))
     kouts = {id(c): c.pop("_out") for c in kcases}
     ctx.correspond("mailbox/kill", kcases, lambda c: kouts[id(c)], c05.op_line, kill_oracle, nontrivial=c05.nontrivial,
                    rule="the real strax.Mailbox under sched.py vs `c05.run`, configurations with killer threads and failing sources; "
@@ -1243,14 +1245,14 @@ def run(ctx):
                    branch=lambda c, o: f"{'lazy' if c['lazy'] else 'eager'}/kills={c['kills'] or '-'}/"
                                        f"{o.split(' end=')[1].split(' ')[0] if ' end=' in o else '?'}")
     # (i) wiring
-    wcases = [wire_case(rng) for _ in range(ctx.pick(400, 4000))]
+    wcases = [wire_case(rng) for _ in range(ctx.pick(400, 8000))]
     ctx.correspond("wire/random-components", wcases, lambda c: _guard(wire_impl, c), wire_op, wire_oracle,
                    nontrivial=lambda c, o: o.count(";") >= 2, rule=RULE_WIRE,
                    branch=lambda c, o: f"lazy={c['allow_lazy']}/workers={c['max_workers']}/multi={int(any(len(d['provides']) > 1 for d in c['defs']))}"
                                        f"/loaders={int(bool(c['loaders']))}/discard={int('discard_' in o)}")
     # (ii) PostOffice
     pcases = po_fixed_cases()
-    for kind, n in (("clean", ctx.pick(500, 5000)), ("fault", ctx.pick(900, 9000)), ("malformed", ctx.pick(150, 1500))):
+    for kind, n in (("clean", ctx.pick(500, 8000)), ("fault", ctx.pick(900, 14000)), ("malformed", ctx.pick(150, 2500))):
         pcases += [po_case(rng, kind) for _ in range(n)]
     po_outs = {id(c): po_impl(c) for c in pcases}
     _by_shape(ctx, "postoffice/scripts", pcases, lambda c: po_outs[id(c)], po_oracle, to_op=lambda c: "c06.po " + ";".join(c["ops"]),
@@ -1266,7 +1268,7 @@ def run(ctx):
     warm_up()
     ctx.note(f"numba warm-up of the pipeline flavours took {time.time() - t1:.0f}s")
     jobs = jobs_default()
-    cases = pipeline_cases(rng, ctx.pick(1, 12)) + lag_cases(rng, ctx.pick(1, 5))
+    cases = pipeline_cases(rng, ctx.pick(1, 30)) + lag_cases(rng, ctx.pick(1, 8))
     outs = run_many(cases, jobs)
     table = {id(c): o for c, o in zip(cases, outs)}
     _by_shape(ctx, "pipeline/fault-injection", cases, lambda c: table[id(c)], pipe_oracle, rule=RULE_PIPE,
